@@ -158,8 +158,14 @@ class YosysBehavioralRTLIRToVVisitorL1( BehavioralRTLIRToVVisitorL1 ):
       if cur_nbits == nbits:
         return value_str
       elif cur_nbits > nbits:
-        msb = nbits-1
-        return f"{value_str}[{msb}:0]"
+        # A part selection is only legal on a signal name: `( a + b )[3:0]`
+        # and `3'(i)[1:0]` are not SystemVerilog. Use the size cast that
+        # visit_Truncate emits for trunc().
+        if isinstance( node.value, ( bir.Attribute, bir.Index, bir.TmpVar ) ) and \
+           value_str[-1] != ')':
+          msb = nbits-1
+          return f"{value_str}[{msb}:0]"
+        return f"{nbits}'({value_str})"
       else:
         # Zero-extend the value
         n_zero = nbits - cur_nbits
